@@ -190,6 +190,7 @@ def libInfo : String → Option LibInfo
   | "DirIT" => some { kind := .iface, ut := .val, size := 16, hasPtr := true }     -- interface{ encoding.TextUnmarshaler }
   | "DirIM" => some { kind := .iface, size := 16, hasPtr := true }                 -- interface{ M() }
   | "DirRef" => some { kind := .nptr "MV", size := 8, hasPtr := true }             -- type DirRef *MV (finding C09-jitdec-namedptr-inline-depth)
+  | "DirRefT" => some { kind := .nptr "TV", size := 8, hasPtr := true }            -- type DirRefT *TV (element with (*TV).UnmarshalText)
   | _ => none
 
 /-- the element of a named pointer type -/
